@@ -40,6 +40,15 @@ def install(root, crash, sig_maps):
             _emit(f"C {first_key} {second_key}")
 
         DU._create_or_update_state = wrapped
+        purge = getattr(DU, "_delete_states_of_other_nodes", None)
+        if purge is not None:
+            # (F28, repaired) the rows of nodes that are no longer neighbours are deleted in one more commit
+            def wrapped_purge(first_key, second_keys):
+                before_effect()
+                purge(first_key, second_keys)
+                _emit(f"P {first_key}")
+
+            DU._delete_states_of_other_nodes = wrapped_purge
         return
     # the function was renamed or inlined: observe committed State rows through SQLAlchemy events
     # (rows whose hash did not change are not seen this way; builds are still observed)
